@@ -290,8 +290,15 @@ Proof.
   destruct p as [s0 r]. cbn [fst] in *.
   set (s1 := match pq_remove HQ (lpq (getl s0 l)) (Z.of_nat f) with Some (_, q') => _ | None => s0 end).
   assert (E1 : qrel c s0 s1) by (unfold s1; destruct (pq_remove _ _ _) as [[? ?]|]; qq).
-  set (s2 := if llocked (getl s1 l) then s1 else wake_up_first_p s1 l).
-  assert (E2 : qrel c s1 s2) by (unfold s2; destruct (llocked _); [qq|apply q_wake_p]).
+  set (s2 := if llocked (getl s1 l)
+             then match lowner (getl s1 l) with
+                  | Some o => if Nat.eqb o t then s1 else propagate_priority s1 o
+                  | None => s1 end
+             else wake_up_first_p s1 l).
+  assert (E2 : qrel c s1 s2).
+  { unfold s2; destruct (llocked _); [|apply q_wake_p].
+    destruct (lowner _) as [o|]; [|qq]. destruct (Nat.eqb o t); [qq|].
+    unfold propagate_priority. apply q_propagate_task. }
   pose proof (qrel_trans _ _ _ _ E0 (qrel_trans _ _ _ _ E1 E2)) as E3.
   destruct had; cbn [fst]; [|exact E3]. qtr; [exact E3|apply qrel_sett_k; reflexivity].
 Qed.
@@ -1288,8 +1295,33 @@ Definition acq_tail (s : st) (t l f : nat) (had : bool) : st :=
             | Some (_, q') => setl s l (lk <| lpq := q' |>
                                          <| lwt := filter (fun pr => negb (Nat.eqb (fst pr) f)) (lwt lk) |>)
             | None => s end in
-  let s2 := if llocked (getl s1 l) then s1 else wake_up_first_p s1 l in
+  let s2 := if llocked (getl s1 l)
+            then match lowner (getl s1 l) with
+                 | Some o => if Nat.eqb o t then s1 else propagate_priority s1 o
+                 | None => s1 end
+            else wake_up_first_p s1 l in
   if had then sett s2 t (gett s2 t <| twaiting := None |>) else s2.
+
+(* propagate_priority re-keys waiter queues (and, on the priority loop, ready-queue handles):
+   owner and locked flag of every lock are untouched (repair F16: the finally clause calls it
+   on the owner of a lock that stays locked) *)
+Lemma propagate_task_own fuel : forall s t l0,
+  lowner (getl (propagate_task fuel s t) l0) = lowner (getl s l0) /\
+  llocked (getl (propagate_task fuel s t) l0) = llocked (getl s l0).
+Proof.
+  induction fuel as [|fuel IH]; intros s t l0; cbn [propagate_task].
+  - destruct (negb (is_prio_task s t)); [auto|]. destruct (task_is_runnable s t); [auto|].
+    destruct (twaiting (gett s t)); auto.
+  - destruct (negb (is_prio_task s t)); [auto|]. destruct (task_is_runnable s t); [auto|].
+    destruct (twaiting (gett s t)) as [l|]; [|auto].
+    set (s1 := match lowner (getl s l) with Some o => propagate_task fuel s o | None => s end).
+    assert (E1 : forall l1, lowner (getl s1 l1) = lowner (getl s l1) /\ llocked (getl s1 l1) = llocked (getl s l1)).
+    { intros l1. unfold s1. destruct (lowner (getl s l)); [apply IH|auto]. }
+    destruct (find _ (lwt (getl s1 l))) as [[f t0]|]; [|apply E1].
+    destruct (pq_reschedule HQ _ _ _) as [[o q']|]; [|apply E1].
+    rewrite getl_setl. destruct (Nat.eqb l l0 && Nat.ltb l (length (locks s1)))%bool eqn:E; [|apply E1].
+    apply andb_prop in E as [E _]. apply Nat.eqb_eq in E. subst l0. cbn. apply E1.
+Qed.
 
 Lemma acq_finish_tail s t l f had inp :
   fst (acquire_p_finish s t l f had inp) =
@@ -1310,11 +1342,19 @@ Proof.
   assert (E1 : lowner (getl s1 l) = lowner (getl s l) /\ llocked (getl s1 l) = llocked (getl s l)).
   { unfold s1. destruct (pq_remove _ _ _) as [[? q']|]; [|auto].
     rewrite getl_setl_same by lia. auto. }
-  set (s2 := if llocked (getl s1 l) then s1 else wake_up_first_p s1 l).
-  assert (E2 : getl s2 l = getl s1 l).
-  { unfold s2. destruct (llocked (getl s1 l)); [reflexivity|]. apply getl_locks, wake_p_locks. }
+  set (s2 := if llocked (getl s1 l)
+             then match lowner (getl s1 l) with
+                  | Some o => if Nat.eqb o t then s1 else propagate_priority s1 o
+                  | None => s1 end
+             else wake_up_first_p s1 l).
+  assert (E2 : lowner (getl s2 l) = lowner (getl s1 l) /\ llocked (getl s2 l) = llocked (getl s1 l)).
+  { unfold s2. generalize (llocked (getl s1 l)) at 1 2. generalize (lowner (getl s1 l)) at 1 3.
+    intros oo b. destruct b.
+    - destruct oo as [o|]; [|auto]. destruct (Nat.eqb o t); [auto|]. apply propagate_task_own.
+    - rewrite (getl_locks _ _ l (wake_p_locks s1 l)). auto. }
+  destruct E1 as [E1a E1b]. destruct E2 as [E2a E2b].
   destruct had; [change (getl (sett s2 t (gett s2 t <| twaiting := None |>)) l) with (getl s2 l)|];
-    rewrite E2; exact E1.
+    rewrite E2a, E2b; auto.
 Qed.
 
 (* the lock record after the code following `await fut` of acquire() *)
@@ -1358,8 +1398,9 @@ Proof.
   intros Hin. destruct (Ho l f Hin) as [_ Hne]. congruence.
 Qed.
 
-(* cancelled / interrupted: the finally clause removes the entry, leaves the lock as it is and
-   (if it is free) a done waiter in the queue - the wake-up is passed on *)
+(* cancelled / interrupted: the finally clause removes the entry, leaves owner and locked flag of
+   the lock as they are (keys may be re-keyed by the F16 propagate when it stays locked by another
+   task) and (if it is free) a done waiter in the queue - the wake-up is passed on *)
 Lemma acq_finish_pass s t l f had e :
   Inv s -> WF4 s -> t < length (tasks s) -> In f (objs s l) -> no_frame s f ->
   snd (acquire_p_finish s t l f had (RExc e)) = RExc e /\
@@ -1429,7 +1470,7 @@ Theorem step_detail t exc s l f had rest k :
   (forall v, rep = RVal v ->
      fstate_ (getf s f) = FResult v /\ r = RVal 1 /\
      lowner (getl s4 l) = Some t /\ llocked (getl s4 l) = true) /\
-  (* an exception (cancelled / interrupted): the entry is removed, the lock left as it is, and
+  (* an exception (cancelled / interrupted): the entry is removed, owner and locked flag kept, and
      if it is free and still has waiters one of them is done - the wake-up is passed on *)
   (forall e, rep = RExc e ->
      r = RExc e /\ lowner (getl s4 l) = lowner (getl s l) /\ llocked (getl s4 l) = llocked (getl s l) /\
